@@ -36,9 +36,9 @@ func init() {
 				Procs:    16,
 				Rule: "mbits: every length 0..16 x every alignment 0..7 x every zero/non-zero pattern (exhaustive), lengths 17..40 (64 thorough) x alignments x structured and random patterns; lengths 16..136 with pairs/triples of 64-bit words that cancel under +, xor and or/and-not (for implementations that combine words before testing), at both possible word phases; a few buffers of 4095..65536 bytes; each in two layouts: a window inside a guard-filled buffer, and a slice that ends exactly at the end of its allocation; LeadingZeroes/TrailingZeroes vs byte loops, Zero clears exactly the slice and returns its length, guard bytes intact; run plain, under -race (checkptr) and, in thorough, under -asan. " +
 					"mstr.Trunc: every string of <= 5 runes over 1-, 2-, 3- and 4-byte runes x every n in 0..len+2 (prefix, len <= n, identity when n >= len, valid UTF-8, len >= n-4 when cut), random invalid byte strings for the unconditional clauses. " +
-					"mstr.CompareNatural: all 259 strings of length <= 3 over {0,1,9,/,:,a}: result in {-1,0,1}, antisymmetry on all pairs, transitivity on all 17.4 M triples (counted: those whose premises a<=b<=c hold), zero iff equal after stripping leading zeros of digit runs; numeric order of embedded digit runs of up to 18 digits, including pairs of runs that differ only in their low-order digits at every magnitude (around powers of ten and of two) with following text that would decide the other way. " +
+					"mstr.CompareNatural: all 259 strings of length <= 3 over {0,1,9,/,:,a}: result in {-1,0,1}, antisymmetry on all pairs, transitivity on all 17.4 M triples (counted: those whose premises a<=b<=c hold), zero iff equal after stripping leading zeros of digit runs; every byte value and every rune U+0080..U+FFFF (stride beyond) placed after, before and between digit runs; numeric order of embedded digit runs of up to 18 digits, including pairs of runs that differ only in their low-order digits at every magnitude (around powers of ten and of two) with following text that would decide the other way. " +
 					"distinct = enumerated inputs; non-trivial = mbits length >= 8 (word loop engaged) / Trunc cuts inside a multi-byte rune / CompareNatural pair with a digit run on both sides",
-				Required:     []string{"mbits_cases", "mbits_unaligned_word_cases", "mbits_exact_end_cases", "mbits_cancelling_word_cases", "trunc_cases", "trunc_cuts_inside_rune", "natural_pairs", "natural_triples", "natural_numeric_pairs", "natural_prefix_pairs", "natural_close_value_pairs"},
+				Required:     []string{"mbits_cases", "mbits_unaligned_word_cases", "mbits_exact_end_cases", "mbits_cancelling_word_cases", "trunc_cases", "trunc_cuts_inside_rune", "natural_pairs", "natural_triples", "natural_numeric_pairs", "natural_prefix_pairs", "natural_close_value_pairs", "natural_rune_next_to_digits_pairs"},
 				Exhaustive:   true,
 				Assumptions:  []string{"an over-read that stays inside one allocation and does not change the result is invisible to this monitor", "digit runs are kept to <= 18 digits so that int does not overflow"},
 				CoverPkgs:    []string{"github.com/creachadair/mds/mbits", "github.com/creachadair/mds/mstr"},
@@ -160,6 +160,18 @@ func c20mbitsVals(c *fw.Ctx, vals []byte, align, layout int, desc string) {
 // ------------------------------------------------------------------ mstr.Trunc
 
 func c20trunc(c *fw.Ctx, s string, valid bool) (cutsInside int64, cases int64) {
+	if len(s)%3 == 1 {
+		// n far beyond len(s), with low bits that look like a small n
+		for _, n := range truncInts(len(s)) {
+			if n > 0 {
+				if got := mstr.Trunc(s, n); got != s {
+					c.Fail(map[string]any{"s": fw.Q(s), "n": n, "result": fw.Q(got)}, "Trunc(s, n) with n >= len(s) does not return s")
+					return
+				}
+				cases++
+			}
+		}
+	}
 	for n := 0; n <= len(s)+2; n++ {
 		got := mstr.Trunc(s, n)
 		cases++
@@ -279,6 +291,26 @@ func refNaturalK(a, b string) (int, int) {
 		return 0, 0
 	}
 	return sign(strings.Compare(a, b)), 2
+}
+
+// c20pair checks one pair against everything the statement fixes: result in
+// {-1,0,1}, antisymmetry, zero iff equal up to leading zeros of digit runs,
+// and the order when it is decided by two digit runs.
+func c20pair(c *fw.Ctx, a, b string) bool {
+	got, rev := mstr.CompareNatural(a, b), mstr.CompareNatural(b, a)
+	want, kind := refNaturalK(a, b)
+	data := map[string]any{"a": fw.Q(a), "b": fw.Q(b)}
+	switch {
+	case got < -1 || got > 1 || got != -rev:
+		c.Fail(data, "CompareNatural(a,b)=%d, CompareNatural(b,a)=%d: not antisymmetric in {-1,0,1}", got, rev)
+	case (got == 0) != (canonDigits(a) == canonDigits(b)):
+		c.Fail(data, "CompareNatural = %d but the strings are %s up to leading zeros of digit runs", got, map[bool]string{true: "equal", false: "different"}[canonDigits(a) == canonDigits(b)])
+	case kind <= 1 && got != want:
+		c.Fail(data, "CompareNatural = %d, but the digit runs compare by value as %d", got, want)
+	default:
+		return true
+	}
+	return false
 }
 
 func hasDigit(s string) bool { return strings.ContainsAny(s, "0123456789") }
@@ -729,5 +761,39 @@ func runC20(c *fw.Ctx) {
 			continue
 		}
 		c20numeric(c, c.Rng())
+	}
+	// every rune of the Basic Multilingual Plane (and a stride beyond) next to
+	// digit runs: after a run, before a run, between two runs, and as the whole
+	// text part; also every single byte value in the same places
+	if c.Flavour != "race" && c.Begin(idx+nn+100+c.Block) {
+		var cnt int64
+		try := func(u string) bool {
+			for _, pr := range [][2]string{
+				{"5" + u, "6"}, {"5" + u, "1075"}, {"5" + u, "05" + u}, {u + "5", u + "6"}, {u + "10", u + "9"}, {u + "007", u + "7"},
+				{"a" + u + "12", "a" + u + "3"}, {"3" + u + "12", "3" + u + "3"}, {"12" + u, "12" + u + "0"}, {u, u + "0"}, {u + "1", u + "01"}, {"9" + u + "9", "9" + u + "10"},
+			} {
+				cnt++
+				if !c20pair(c, pr[0], pr[1]) {
+					return false
+				}
+			}
+			return true
+		}
+		for b := c.Block; b < 256; b += c.NBlocks {
+			if (b < '0' || b > '9') && !try(string([]byte{byte(b)})) {
+				return
+			}
+		}
+		for cp := 0x80 + c.Block; cp <= 0x10FFFF; cp += c.NBlocks {
+			if cp >= 0xD800 && cp <= 0xDFFF || (cp > 0xFFFF && (cp/c.NBlocks)%97 != 0) {
+				continue
+			}
+			if !try(string(rune(cp))) {
+				return
+			}
+		}
+		c.Add("natural_rune_next_to_digits_pairs", cnt)
+		c.Evals(cnt)
+		c.SeenEnum(cnt)
 	}
 }
